@@ -141,7 +141,7 @@ CHECKS = {
              'from _const.py and re-proved.',
         note='Float rounding and the 2 cm figure are measured, not proved (correspondence is bit-level up to 1e-9; oracle = unit-vector rotation / '
              'atan2 of cross and dot norms, independent of the haversine formulas). Known finding: within 1 m of the poles the 2 cm clause fails.',
-        technique='Lean 4 proof over a generic numeric class (real instance for proofs, Float instance in the driver) + differential correspondence on structured cases + independent geodesic oracle',
+        technique='Lean 4 proof over a generic numeric class (real instance for proofs, Float instance in the driver) + source translator (the haversine, bearing and destination formulas of calc.py regenerated as Lean, operation by operation, over the same numeric class and proved equal to the model) + differential correspondence on structured cases + independent geodesic oracle',
         design='§6 C07'),
     'C09': dict(
         text='Lean 4 theorems: vertex bounds are the min/max box (every vertex inside, each side attained), multi-shape/collection bounds are the '
